@@ -107,10 +107,14 @@ def build_system(case):
         phys, bond = choose_dims(rng, par)
     if isinstance(bond, dict):
         bond = {int(k): v for k, v in bond.items()}
+    if case.get("hubdims"):
+        bond = hub_bonds(case, rng, par, phys, bond)      # LARGE family: bond dimensions given in the TTNO's neighbour order
     # every fourth system (by seed) starts from an all-REAL state (float64 tensors, as the product-state
     # constructors produce): the evolved tensors are complex, so the dtype has to change on the first update
     real_state = case.get("real", case["seed"] % 4 == 1)
     ttns = util.build_ttns(rng, par, phys=phys, bond=bond, complex_=not real_state)
+    if case.get("ghz"):
+        make_ghz(ttns, case)          # SYMMETRIC states: GHZ-type, exactly degenerate Schmidt spectra (see make_ghz)
     ids = sorted(ttns.nodes)
     dims = util.phys_dims(ttns)
     nterms = case.get("nterms", 3)
@@ -118,6 +122,11 @@ def build_system(case):
                         max_support=case.get("max_support"))
     if not ham.terms:
         raise _Skip("empty Hamiltonian")
+    if case.get("hamkind") == "diag":
+        # every site operator replaced by its (real) diagonal part: a Hermitian Hamiltonian that is diagonal in the product basis
+        conv = ham.conversion_dictionary
+        for lab in list(conv):
+            conv[lab] = np.diag(np.real(np.diag(np.asarray(conv[lab])))).astype(complex)
     # ---- SCALE families (units): the same physical system written in other units, see gen_scaled_cases ----
     hexp = case.get("hexp")
     if case.get("loss") is not None:
@@ -144,6 +153,70 @@ def build_system(case):
     dt = min(max(dt, 2.0 ** -24), 0.25) * case.get("dtscale", 1) / unit
     return {"dt": dt, "ttns": ttns, "ham": ham, "ttno": ttno, "ids": ids, "dims": dims, "H": H, "ref": ref, "phys": phys,
             "builder": bool(case.get("builder"))}
+
+
+def hub_bonds(case, rng, par, phys, bond):
+    """LARGE family: the bond dimensions around the node case["hub"] are given as the list case["hubdims"] in the order in
+    which the TTNO lists the neighbours of that node (parent first, then its children in the TTNO's child order): the k-th
+    neighbour's bond gets hubdims[k].  The TTNO's tree is either the reference tree of `ttno_shuffle` or the state's own
+    tree; the latter's child order is found by a probe construction from the same generator state (the attach order of
+    util.build_ttns does not depend on the dimensions)."""
+    h = case["hub"]
+    if case.get("ttno_shuffle"):
+        probe = util.build_ttns(random.Random(case["seed"] + 17), par, phys=phys, bond=1, shuffle=False)
+    else:
+        st = rng.getstate()
+        probe = util.build_ttns(rng, par, phys=phys, bond=1)
+        rng.setstate(st)
+    node = probe.nodes[f"n{h}"]
+    nbs = ([] if node.is_root() else [nid(node.parent)]) + [nid(c) for c in node.children]
+    bond = dict(bond)
+    for nb, d in zip(nbs, case["hubdims"]):
+        bond[nb if par[nb] == h else h] = int(d)
+    return bond
+
+
+def make_ghz(ttns, case):
+    """SYMMETRIC initial states: sum_k c_k |k k ... k> with |c_k| = case["ghz"][k] (random phases), written with copy tensors
+    (every bond has dimension d = len(case["ghz"]) <= every physical dimension; the weights sit on the root).  The Schmidt
+    spectrum across EVERY edge is the list |c_k|: equal magnitudes are exactly degenerate singular values (Bell / GHZ states:
+    1/sqrt2, 1/sqrt2).  A Hamiltonian that is diagonal in the product basis (hamkind "diag") or a sum of single-site terms
+    (max_support 1) only changes phases / local bases, so the degeneracy persists during the evolution.  With case["rotate"]
+    a random unitary is applied to every physical leg (the same spectra in a generic local basis)."""
+    mags = [float(x) for x in case["ghz"]]
+    d = len(mags)
+    nprs = np.random.RandomState((case["seed"] + 5) % (2 ** 31))
+    for node_id in list(ttns.nodes):
+        node = ttns.nodes[node_id]
+        shape = tuple(ttns.tensors[node_id].shape)          # parent, children, open leg
+        t = np.zeros(shape, dtype=complex)
+        for k in range(d):
+            t[(k,) * len(shape)] = mags[k] * np.exp(2j * np.pi * nprs.random_sample()) if node.is_root() else 1.0
+        if case.get("rotate"):
+            pdim = shape[-1]
+            q, _ = np.linalg.qr(nprs.standard_normal((pdim, pdim)) + 1j * nprs.standard_normal((pdim, pdim)))
+            t = np.tensordot(t, q, axes=(-1, 1))
+        ttns.replace_tensor(node_id, t)
+
+
+GHZ_SPECTRA = {2: [[1, 1], [1, 1], [1, 1], [1, 0.5]],
+               3: [[1, 1, 1], [1, 1, 0.5], [1, 0.5, 0.5], [1, 1, 1], [1, 0.5, 0.25]],
+               4: [[1, 1, 1, 1], [1, 1, 0.5, 0.5], [1, 0.5, 0.5, 0.5], [1, 1, 1, 0.5], [1, 0.5, 0.5, 0.25]]}
+
+
+def gen_ghz_fields(rng, j):
+    """tree, dimensions, spectrum and Hamiltonian kind of a GHZ-type case (dense space <= 300 dimensions)"""
+    d = rng.choice([2, 2, 3, 4])
+    pool = [p for p in SPECIAL_TREES if d ** len(p) <= 300]
+    par = rng.choice(pool) if j % 3 else random_tree(rng, rng.choice([n for n in (2, 3, 4, 5, 6) if d ** n <= 300]))
+    n = len(par)
+    phys = [d] * n
+    if d ** (n - 1) * (d + 1) <= 300 and rng.random() < 0.3:
+        phys[rng.randrange(n)] = d + 1                   # one physical leg larger than the bonds
+    local = j % 2 == 1
+    return {"par": par, "phys": phys, "bond": d, "ghz": rng.choice(GHZ_SPECTRA[d]), "hamkind": "local" if local else "diag",
+            "max_support": 1 if local else None, "rotate": local, "herm": True, "coeffs": False, "real": False,
+            "nterms": rng.choice([2, 3, 4]) if not local else rng.randint(1, n)}
 
 
 def rescale_hamiltonian(ham, factor):
@@ -315,6 +388,14 @@ class Recorder:
         special = [i for i in cands if i.startswith("link_") or i.startswith("TwoSite_")]
         if special:
             cands = special
+        if len(cands) > 1:
+            # several nodes hold tensors EQUAL in value (product states after a truncation to bond 1, GHZ copy tensors): the
+            # tensor handed over is the stored OBJECT of the updated node (raw dictionary read: no lazy transposition is
+            # triggered on the live state); value equality alone would name the first such node in dictionary order
+            raw = getattr(algo.state.tensors, "data", {})
+            same = [i for i in cands if raw.get(i) is psi]
+            if same:
+                cands = same
         if not cands:
             self.log.append(("unknown", list(psi.shape), f))
             self.problems.append("the tensor handed to time_evolve is not a tensor of the current state")
@@ -818,6 +899,60 @@ def gen_history_cases(rng, count, kinds, base):
     return cases
 
 
+# trees with a node of degree >= 3 and few nodes (the dense space stays small: all physical dimensions 2)
+HUB_TREES = [
+    [None, 0, 0, 0],                 # star: the root has three neighbours
+    [None, 0, 1, 1],                 # a node with a parent and two children
+    [None, 0, 0, 0, 0],              # star: four neighbours
+    [None, 0, 1, 1, 1],              # parent and three children
+    [None, 0, 0, 1, 1],              # root with two children, one of which has two children
+    [None, 0, 1, 1, 2],              # hub below a single-child root, one arm of length two
+    [None, 0, 0, 0, 1, 1],           # two adjacent hubs
+    [None, 0, 1, 2, 2, 1],           # hub two levels below the root, next to a second hub
+]
+
+
+def gen_large_cases(rng, count, kinds, base):
+    """LARGE LOCAL TENSORS ("any bond dimensions, zero-padded bonds"; the property text puts no bound on the size of a local
+    tensor): trees with 4..6 nodes and a node of degree 3 or 4 (the hub) whose bonds have pairwise DIFFERENT dimensions
+    d_1 .. d_k (4..14 for three neighbours, 2..9 for four) with a local dimension d_1 * ... * d_k * 2 in [512, 1536]; every
+    other bond 1..2, physical dimension 2 everywhere (the leaves' bonds exceed the space behind them: zero-padded; the
+    dense space has 16..64 dimensions, so E^dagger H E is as cheap as in the small cases although it is a matrix of 512..1536
+    rows).  The hub's dimensions are laid out along the TTNO's neighbour order of the hub by every permutation of their
+    sorted order in turn (increasing, decreasing, single swaps, cyclic shifts; the state's own leg order is shuffled as
+    always, and the TTNO is built on the state's tree or on a reference tree with another child order).  Evolution in the
+    default / Chebyshev / RK45 modes (action of the exponential on the vector: no 1000 x 1000 matrix exponential).  The
+    diagram-level tie (C05W) is not sampled on these cases."""
+    import itertools
+    cases = []
+    perms = {}
+    for j in range(count):
+        par = rng.choice(HUB_TREES) if j % 4 != 3 else None
+        while par is None:
+            cand = random_tree(rng, rng.choice([4, 5, 6]))
+            if max(degrees(cand)) in (3, 4):
+                par = cand
+        deg = degrees(par)
+        hubs = [i for i in range(len(par)) if deg[i] >= 3]
+        h = rng.choice(hubs)
+        k = deg[h]
+        while True:
+            dims = sorted(rng.sample(range(4, 15) if k == 3 else range(2, 10), k))
+            if 512 <= 2 * int(np.prod(dims)) <= 1536:
+                break
+        if k not in perms or not perms[k]:
+            perms[k] = list(itertools.permutations(range(k)))
+            rng.shuffle(perms[k])
+        pm = perms[k].pop()
+        c = {"par": par, "kind": kinds[j % len(kinds)], "seed": rng.randrange(10 ** 9)}
+        c.update(base(rng, j, par))
+        c.update({"phys": [2] * len(par), "bond": {i: rng.choice([1, 2, 2]) for i in range(1, len(par))},
+                  "hub": h, "hubdims": [dims[i] for i in pm], "mode": ["default", "chebyshev", "RK45"][(j // len(kinds)) % 3],
+                  "nsteps": 1, "wcap": 0, "large": True, "real": False})
+        cases.append(c)
+    return cases
+
+
 HEXP_BANDS = [(-44, -24), (-23, -8), (8, 24), (-7, 7)]      # exponents of two: 6e-14 .. 1.7e7, four bands visited in turn
 SEXPS = [-30, -16, -6, 6, 16]                                # state rescaled by 2^sexp (norm 1e-9 .. 6e4 times the random one)
 
@@ -945,6 +1080,11 @@ class C05(Prop):
             "two thirds of these cases are a Hermitian Hamiltonian plus loss terms -i eps P_j on 1, 2 or all sites, eps = 10^u, u uniform in "
             "[-9.5, -1] (weakly non-Hermitian TTNO, weak decay next to large energies), the rest Hermitian / generic non-Hermitian; every fifth "
             "state rescaled by 2^-30 .. 2^16, every seventh with physical legs of dimension 1; H_eff is judged RELATIVE to max|E^dagger H E| (floor 1e-3 max|H| mean column norm^2 of E). "
+            "Large local tensors (trees 4..6 nodes, physical dimension 2, dense space 16..64): a hub of degree 3 or 4 whose bonds have pairwise different "
+            "dimensions (4..14 resp. 2..9) with local dimension 512..1536 (leaf bonds far above the space behind them: zero-padded), every other "
+            "bond 1..2; the hub's dimensions are laid out along the TTNO's neighbour order of the hub by every permutation of their sorted order "
+            "in turn (sorted, single swaps, cyclic shifts, reversed), TTNO on the state's tree or on a reference tree with another child order, all "
+            "three classes (one-site twice as often), default / Chebyshev / RK45 modes, dense E^dagger H E oracle at every call (no diagram tie). "
             "non-trivial = at least one link/two-site update (always, >= 2 nodes); distinct by content")
     clauses = [
         ("F", "for every tree with unique ids and >= 2 nodes the three traces are defined (C05_trace*_defined); one-site schemes: the signed Site "
@@ -1036,6 +1176,11 @@ class C05(Prop):
         # UNITS / SCALES: Hamiltonian in units 2^-44 .. 2^24 with H dt unchanged, weak loss on top of a Hermitian Hamiltonian,
         # rescaled states; H_eff is judged relative to the size of E^dagger H E
         cases += gen_scaled_cases(rng, ctx.scale(24, 600) * budget_scale, kinds, lambda rng, j, par: extra(rng, j, par), lossy=True)
+        # LARGE LOCAL TENSORS: a hub of degree 3..4 with pairwise different bond dimensions and local dimension 512..1536, the
+        # dimensions laid out along the TTNO's neighbour order by every permutation in turn (one-site schemes twice as often as the
+        # two-site scheme, whose untruncated SVDs shrink the zero-padded bonds before the hub's backward site update)
+        cases += gen_large_cases(rng, ctx.scale(12, 120) * budget_scale, ["tdvp1", "tdvp2", "tdvp2s", "tdvp2", "tdvp1"],
+                                 lambda rng, j, par: extra(rng, j, par))
         return cases
 
     def nontrivial(self, case):
@@ -1055,6 +1200,13 @@ class C05(Prop):
             if x.get("tratio") is not None and x["tratio"] != int(x["tratio"]):
                 c["final-time-not-multiple-of-dt"] += 1
             scale_distribution(c, x)
+            if x.get("hubdims"):
+                c["large-hub-local-dim>=512"] += 1
+                c["large-hub-degree=%d" % len(x["hubdims"])] += 1
+                hd = x["hubdims"]
+                pm = tuple(sorted(range(len(hd)), key=lambda i: hd[i]))
+                inv = tuple(sorted(range(len(pm)), key=lambda i: pm[i]))
+                c["large-hub-dims-vs-ttno-order=" + ("sorted" if list(hd) == sorted(hd) else "involution" if pm == inv else "non-involutive")] += 1
         return dict(c)
 
     def impl(self, ctx, cases):
